@@ -113,6 +113,17 @@ int main()
       if (!configured) { o << "err noconfig\n"; continue; }
       for (int i = 0; i < S.eng.natoms; i++) S.eng.pos[i] = v3();
       evaluate();
+    } else if (cmd == "S") {
+      // S <param> <value>: colvar::set_cvc_param on the (single-component) variable
+      if (!configured) { o << "err noconfig\n"; continue; }
+      colvar *cv = (*(S.proxy->colvars->variables()))[0];
+      cvm::clear_error();
+      int err;
+      if (a[0] == "componentExp") { int n = atoi(a[1].c_str()); err = cv->set_cvc_param(a[0], &n); }
+      else { cvm::real x = num(a[1]); err = cv->set_cvc_param(a[0], &x); }
+      err |= cvm::get_error();
+      o << (err == COLVARS_OK ? "ok" : "err") << "\n";
+      cvm::clear_error();
     } else if (cmd == "M" || cmd == "F") {
       // M | <conf of component 0> ~ <conf of component 1> ~ ...   = cv colvar c modifycvcs (colvar::update_cvc_config)
       // F <b0> <b1> ...                                            = cv colvar c cvcflags   (colvar::set_cvc_flags)
